@@ -93,9 +93,12 @@ def mon_c06(run):
     v = []
     sc, tr = run['sc'], run['tracer']
     X = tr.X
-    if run['hang']: return v
     T = int(sc.get('timeout', 1) * 1000)
-    reqs = per_request(run)
+    reqs = per_request(run)      # completed requests only: the checks below also apply to what happened before a hang
+    if run['hang']:
+        started = {op['k'] for ph in sc['phases'] for op in ph if op['op'] == 'req'}
+        missing = sorted(started - set(reqs))
+        v.append(('caller-never-completes', f'the run does not terminate: the calls of tasks {missing} never return (every transmission was answered at most once and in time or dropped)'))
     # (a) one request on the wire at a time
     sends = sorted(tr.sends, key=lambda s: s['t'])
     for i, s in enumerate(sends):
